@@ -366,6 +366,61 @@ func scExpireEvict(w *World) {
 	w.mine(w.pooled())
 }
 
+// size-limit eviction with the node's own (Local) transactions in the tail: a local child of a cheap non-local
+// parent, a local parent with a non-local child, a local chain
+func scEvictLocal(w *World) {
+	fc := w.freeCoins(true)
+	cheap := func(c []*chainkit.Coin, nout int) *txInfo { // just above the fee floor: lands in the evicted tail
+		return w.spend(c, nout, uint64(75+120*len(c)+40*nout), nil, false)
+	}
+	p1 := cheap(fc[:1], 2)
+	w.submit(p1, "net")
+	c1 := w.spend(p1.outs[:1], 1, 0, nil, false)
+	w.submit(c1, "local") // local child of a non-local parent
+	p2 := cheap(fc[1:2], 2)
+	w.submit(p2, "local")
+	c2 := cheap(p2.outs[:1], 1)
+	w.submit(c2, "net") // non-local child of a local parent
+	p3 := cheap(fc[2:3], 1)
+	w.submit(p3, "trusted")
+	c3 := w.spend(p3.outs[:1], 1, 10, nil, false)
+	w.submit(c3, "local")
+	g3 := w.spend(c3.outs[:1], 1, 5, nil, false)
+	w.submit(g3, "local")
+	w.fillBig(fc[3:], 14)
+	w.tickEvict(300000)
+	w.reload()
+	w.tickEvict(100000)
+	w.mine(w.pooled())
+}
+
+// two unconfirmed families joined by a common child (CPFP packages that overlap): a <- b (rich), d (poor),
+// c spends b and d; then a second join on top, a replacement of a member and a block taking one root
+func scJoinedFamilies(w *World) {
+	fc := w.freeCoins(true)
+	a := w.spend(fc[:1], 2, 40000, nil, false)
+	w.submit(a, "net")
+	b := w.spend(a.outs[:1], 2, 30000, nil, false)
+	w.submit(b, "net")
+	d := w.spend(fc[1:2], 2, 400, nil, false)
+	w.submit(d, "net")
+	c := w.spend([]*chainkit.Coin{b.outs[0], d.outs[0]}, 2, 9000, nil, false)
+	w.submit(c, "net")
+	e := w.spend(fc[2:3], 1, 350, nil, false) // a third root, joined through c's and a's outputs
+	w.submit(e, "net")
+	f := w.spend([]*chainkit.Coin{c.outs[0], e.outs[0], a.outs[1]}, 1, 20000, nil, false)
+	w.submit(f, "trusted")
+	w.reload() // packages rebuilt from scratch
+	g := w.spend([]*chainkit.Coin{d.outs[1], b.outs[1]}, 1, 700, nil, false)
+	w.submit(g, "local")
+	d2 := w.spend(fc[1:2], 1, 90000, nil, false) // replaces d and everything under it
+	w.submit(d2, "net")
+	h := w.spend([]*chainkit.Coin{b.outs[0], d2.outs[0]}, 1, 2500, nil, false)
+	w.submit(h, "net")
+	w.mine([]*txInfo{a})
+	w.mine(w.pooled())
+}
+
 // fillBig adds n transactions of ~90 KB each (one of them with a child)
 func (w *World) fillBig(fc []*chainkit.Coin, n int) {
 	big := make([]byte, 9000)
@@ -618,6 +673,8 @@ func scenarios(r *vlib.Run) []scenario {
 		{"corpus:orphan-bad-vout", scOrphanBadVout, false},
 		{"corpus:blocks-reorg", scBlocksReorg, false},
 		{"corpus:expire-evict", scExpireEvict, false},
+		{"corpus:evict-local", scEvictLocal, false},
+		{"corpus:joined-families", scJoinedFamilies, false},
 		{"corpus:rejects", scRejects, false},
 	}
 	nr := r.N(10, 60)
